@@ -52,25 +52,45 @@ pub struct SeqCfg {
     pub uni_streams: bool,
     /// appended to the family label in signatures
     pub suffix: &'static str,
-    /// 0: fresh queue; 1: the history starts after enough add/drop churn to
-    /// leave a reclamation epoch pending (a non-initial state of the manager)
+    /// retirements accumulated by add/drop churn before the history starts
+    /// (0 = fresh queue): non-initial states of the reclamation manager
     pub pre: u8,
 }
 
-fn pre_ops(c: &SeqCfg) -> Vec<Op> {
-    let mut v = Vec::new();
-    if c.pre == 1 {
-        if c.qc.fl == Flavour::B {
-            for _ in 0..6 {
-                v.push(opd(AddStream, 1, 6));
-                v.push(op(DropH, 6));
-            }
-        } else {
-            for _ in 0..22 {
-                v.push(opd(CloneH, 1, 6));
-                v.push(op(DropH, 6));
-            }
+fn churn_suffix(pre: u8) -> &'static str {
+    match pre {
+        16 => "+after-churn16",
+        17 => "+after-churn17",
+        18 => "+after-churn18",
+        19 => "+after-churn19",
+        20 => "+after-churn20",
+        24 => "+after-churn24",
+        _ => "",
+    }
+}
+
+fn churn_of_sig(sig: &str) -> u8 {
+    for p in [16u8, 17, 18, 19, 20, 24] {
+        if sig.contains(churn_suffix(p)) {
+            return p;
         }
+    }
+    0
+}
+
+fn pre_ops(c: &SeqCfg) -> Vec<Op> {
+    // `pre` = number of retirements the reclamation manager has accumulated
+    // before the enumerated history starts (the threshold for a cycle is 20)
+    let mut v = Vec::new();
+    let n = c.pre as usize;
+    let (cycles, singles) = if c.qc.fl == Flavour::B { (n / 4, n % 4) } else { (0, n) };
+    for _ in 0..cycles {
+        v.push(opd(AddStream, 1, 6));
+        v.push(op(DropH, 6));
+    }
+    for _ in 0..singles {
+        v.push(opd(CloneH, 1, 6));
+        v.push(op(DropH, 6));
     }
     v
 }
@@ -837,11 +857,22 @@ fn configs(prop: &str, tier: Tier) -> Vec<SeqCfg> {
                 pre: 0,
             });
             if matches!(prop, "C09" | "C13" | "C15") && cap == 1 {
-                let mut c3 = *v.last().unwrap();
-                c3.pre = 1;
+                // non-initial states of the reclamation manager: a cycle pending
+                // (24 retirements), and every count just below the threshold, so
+                // that the enumerated operations themselves cross it
+                let base = *v.last().unwrap();
+                let mut c3 = base;
+                c3.pre = 24;
                 c3.depth -= 1;
-                c3.suffix = "+after-churn";
+                c3.suffix = churn_suffix(24);
                 v.push(c3);
+                for pre in 16..=20u8 {
+                    let mut c4 = base;
+                    c4.pre = pre;
+                    c4.depth = if thorough { 4 } else { 3 };
+                    c4.suffix = churn_suffix(pre);
+                    v.push(c4);
+                }
             }
             if prop == "C05" && fl == Flavour::M && fut && cap <= 2 {
                 // a second stream on a move-out queue (MPMCFutUniReceiver::add_stream_with)
@@ -961,16 +992,17 @@ fn pump(st: &mut SeqStats, fl: Flavour, fut: bool, cap: u64, label: &str) {
 
 /// C17: churn histories: memory held by the queue must not grow with the
 /// number of add/remove cycles while a fixed set of handles keeps operating.
-fn churn(st: &mut SeqStats, fl: Flavour, fut: bool, cycles: usize, early_drop: bool, kind: usize) {
+fn churn(st: &mut SeqStats, fl: Flavour, fut: bool, cycles: usize, early_drop: bool, kind: usize, burst: usize) {
     let qc = if fut {
         crate::catalog::qf(fl, 2, (0, 0))
     } else {
         crate::catalog::q(fl, 2, WaitK::Busy)
     };
     let label = format!(
-        "{}{}|cycle={}|early-drop={}",
+        "{}{}{}|cycle={}|early-drop={}",
         if fl == Flavour::B { "bcast" } else { "mpmc" },
         if fut { "-fut" } else { "" },
+        if burst > 1 { "|bursts" } else { "" },
         ["clone-recv", "add-stream", "clone-sender", "single-multi", "clone-sender-after-receivers-left"][kind],
         early_drop
     );
@@ -1016,11 +1048,14 @@ fn churn(st: &mut SeqStats, fl: Flavour, fut: bool, cycles: usize, early_drop: b
                 run(op(IntoMulti, 1));
             }
         }
-        // the fixed handles keep operating
-        run(opv(TrySend, 0, val));
-        val += 1;
-        if kind != 4 {
-            run(op(TryRecv, 1));
+        // the fixed handles keep operating (after every cycle, or after a burst
+        // of cycles during which they were idle)
+        if i % burst == 0 {
+            run(opv(TrySend, 0, val));
+            val += 1;
+            if kind != 4 {
+                run(op(TryRecv, 1));
+            }
         }
         ctx.hist.lk().clear();
         if std::env::var("MQV_DEBUG").is_ok() && i % 10 == 0 {
@@ -1035,7 +1070,7 @@ fn churn(st: &mut SeqStats, fl: Flavour, fut: bool, cycles: usize, early_drop: b
     st.histories += 1;
     st.calls += (cycles * 4) as u64;
     st.depth = st.depth.max(cycles * 4);
-    st.states.insert(cycles as u64 * 131 + kind as u64 * 7 + early_drop as u64 + if fut { 1000 } else { 0 } + if fl == Flavour::B { 50000 } else { 0 });
+    st.states.insert(cycles as u64 * 131 + burst as u64 * 1009 + kind as u64 * 7 + early_drop as u64 + if fut { 1000 } else { 0 } + if fl == Flavour::B { 50000 } else { 0 });
     // growth between the half-way mark and the end (after warm-up)
     let a = plateau[1];
     let b = plateau[3];
@@ -1162,18 +1197,21 @@ pub fn main(prop: &str, tier: Tier, si: usize, sk: usize) {
                             if kind == 4 && early {
                                 continue;
                             }
-                            jobs.push((fl, fut, cy, early, kind));
+                            jobs.push((fl, fut, cy, early, kind, 1usize));
+                            if !early {
+                                jobs.push((fl, fut, cy, early, kind, 16usize));
+                            }
                         }
                     }
                 }
             }
         }
-        for (j, (fl, fut, cy, early, kind)) in jobs.into_iter().enumerate() {
+        for (j, (fl, fut, cy, early, kind, burst)) in jobs.into_iter().enumerate() {
             if j % sk != si {
                 continue;
             }
-            st.configs.push(format!("churn:{:?}:{}:{}:{}:{}", fl, fut, cy, early, kind));
-            churn(&mut st, fl, fut, cy, early, kind);
+            st.configs.push(format!("churn:{:?}:{}:{}:{}:{}:{}", fl, fut, cy, early, kind, burst));
+            churn(&mut st, fl, fut, cy, early, kind, burst);
         }
     }
     print(&st);
@@ -1223,12 +1261,10 @@ pub fn replay(path: &str) {
                     uni_streams: true,
                     suffix: if sig.contains("+second-stream-via-add_stream_with") {
                         "+second-stream-via-add_stream_with"
-                    } else if sig.contains("+after-churn") {
-                        "+after-churn"
                     } else {
-                        ""
+                        churn_suffix(churn_of_sig(&sig))
                     },
-                    pre: sig.contains("+after-churn") as u8,
+                    pre: churn_of_sig(&sig),
                 };
                 // the history must be well-formed for this family
                 let ok = std::panic::catch_unwind(|| {
